@@ -269,11 +269,7 @@ class FA:
         return tgt or None
 
     def _is_result_of(self, body, tree, c):
-        if tree[0] == "call" and tree[1] == c.callee and tree[3] == c.decl:
-            # same callee and identical argument origins
-            args = tuple(body._op_origin(a, 13, frozenset()) for a in c.args)
-            return tree[2] == args
-        return False
+        return tree[0] == "call" and len(tree) > 5 and tree[5] == c.bb
 
     def check(self, fn, root=1, by_value=False, _stack=()):
         """returns (ok, findings); finding = dict(err_loc, mut_loc, why)"""
@@ -479,3 +475,93 @@ def dominated_by_edge(body, site_bb, guard_bb, edge_target):
     succ[guard_bb] = [s for s in succ[guard_bb] if s != edge_target]
     r = body.reach([0], succ=succ)
     return site_bb not in r
+
+
+# ---------------------------------------------------------------------------
+# dominating guard with edge polarity
+
+
+def pass_targets(body, g, pass_values):
+    """targets of switch block g taken for discriminant values in pass_values
+    (the `otherwise` target counts as passing only when no listed arm covers a pass value
+    and `otherwise_passes` semantics are requested via value None)."""
+    t = body.term(g)
+    arms = {v: tg for v, tg in t[2]}
+    out = set()
+    for v in pass_values:
+        if v is None:
+            out.add(t[3])
+        elif v in arms:
+            out.add(arms[v])
+        else:
+            out.add(t[3])
+    return out
+
+
+def guarded_by(body, site_bb, pred, pass_values):
+    """True iff some switch block g with pred(tokens, origin, g) dominates site_bb and the site is
+    not reachable from any successor of g other than the pass targets (without re-entering g).
+    Returns (ok, g)."""
+    doms = body.dom.get(site_bb)
+    if doms is None:
+        return False, None
+    for g in sorted(doms):
+        if g == site_bb and body.term(g)[0] != "switch":
+            continue
+        t = body.term(g)
+        if t[0] != "switch" or const_int(t[1]) is not None:
+            continue
+        o = body.origin(t[1])
+        if not pred(tokens(o), o, g):
+            continue
+        pt = pass_targets(body, g, pass_values)
+        bad = False
+        for s in body.succ[g]:
+            if s in pt:
+                continue
+            if site_bb in body.reach([s], avoid=[g]):
+                bad = True
+        # the pass target itself must not also be a fail target
+        fails = [s for s in body.succ[g] if s not in pt]
+        if not fails:
+            bad = True
+        if not bad:
+            return True, g
+    return False, None
+
+
+def interproc_guarded(F, fn, site_bb, pred, pass_values, depth=3, _seen=None):
+    """site guarded locally, or the enclosing function is only called from guarded sites
+    (private helper pattern).  Returns (ok, explanation)."""
+    body = F.body(fn)
+    ok, g = guarded_by(body, site_bb, pred, pass_values)
+    if ok:
+        return True, "guard bb%d in %s" % (g, short(fn))
+    if depth <= 0:
+        return False, "not guarded in %s" % short(fn)
+    _seen = _seen or set()
+    if fn in _seen:
+        return False, "recursive"
+    e = F.fns.get(fn, {})
+    if e.get("reach") and e.get("vis") == "pub":
+        return False, "not guarded in %s and the function is public API" % short(fn)
+    callers = call_sites(F, fn)
+    # closures: the creating function is the caller context
+    if not callers:
+        if e.get("kind") == "Closure":
+            # find the block creating the closure in its parent
+            root = e.get("root")
+            for p in F.all_body_paths():
+                if not (p == root or p.startswith(root + "::")):
+                    continue
+                pb = F.body(p)
+                for bi, blk in enumerate(pb.blocks):
+                    for s in blk["s"]:
+                        if s[0] == "=" and s[2][0] == "agg" and s[2][1][0] in ("closure", "coroutine") and s[2][1][1] == fn:
+                            return interproc_guarded(F, p, bi, pred, pass_values, depth - 1, _seen | {fn})
+        return False, "not guarded in %s and no callers found" % short(fn)
+    for (cfn, c) in callers:
+        ok, why = interproc_guarded(F, cfn, c.bb, pred, pass_values, depth - 1, _seen | {fn})
+        if not ok:
+            return False, "caller %s of %s: %s" % (short(cfn), short(fn), why)
+    return True, "all %d callers of %s guarded" % (len(callers), short(fn))
